@@ -146,6 +146,7 @@ function runJob (job) {
         for (const mode of ['handler', 'string']) {
           const saved = Error.prepareStackTrace
           let structured = null
+          const enclosing = []
           const user = mode === 'handler'
             ? (err, cs) => {
                 // a handler may use the whole CallSite API: nothing of it may be missing or throw
@@ -160,6 +161,16 @@ function runJob (job) {
                   // what a handler that prints the call site itself shows
                   const t = frameOfLine('at ' + String(c))
                   if (typeof t.path === 'string' && isMine(t.path)) structured.push({ path: t.path, line: t.line, col: t.col, printed: true })
+                }
+                // the start of the enclosing function is a position in the file like the call site's own: what the
+                // wrapped call site reports for it is what the package reports for a call site AT that position
+                for (const c of cs) {
+                  const raw = c.getThis()
+                  if (!raw || typeof raw.getEnclosingLineNumber !== 'function') continue
+                  const rl = raw.getEnclosingLineNumber(); const rc = raw.getEnclosingColumnNumber(); const rf = raw.getFileName()
+                  if (typeof rl === 'number' && typeof rc === 'number' && typeof rf === 'string' && isMine(rf)) {
+                    enclosing.push({ file: rf, l: rl, c: rc, line: c.getEnclosingLineNumber(), col: c.getEnclosingColumnNumber() })
+                  }
                 }
                 // a handler that names frames by getScriptNameOrSourceURL(): nothing (null) or the translated path,
                 // never the rewritten file's name next to the translated line
@@ -207,6 +218,24 @@ function runJob (job) {
             Error.prepareStackTrace = saved
           }
           for (const g of got) ev.frames.push(Object.assign({ mode }, g || {}))
+          if (enclosing.length) {
+            // oracle: the package's own translation of a call site at that position (probes of arbitrary positions are
+            // bound to the specification's Lookup by the probe histories)
+            const fake = (f, l, c) => ({
+              getFileName: () => f, getLineNumber: () => l, getColumnNumber: () => c, getTypeName: () => null, getFunction: () => undefined,
+              getFunctionName: () => 'f', getMethodName: () => null, getEvalOrigin: () => undefined, isToplevel: () => true,
+              isEval: () => false, isNative: () => false, isConstructor: () => false, toString: () => 'f (' + f + ':' + l + ':' + c + ')'
+            })
+            try {
+              const prep = pkg.getPrepareStackTrace((err, cs) => cs.map((c) => [c.getLineNumber(), c.getColumnNumber()]))
+              const out = prep(new Error('probe'), enclosing.map((e) => fake(e.file, e.l, e.c)))
+              const bad = enclosing.filter((e, i) => e.line !== out[i][0] || e.col !== out[i][1])
+              ev.enclosing_checked = (ev.enclosing_checked || 0) + enclosing.length
+              if (bad.length) ev.enclosing_bad = JSON.stringify(bad.slice(0, 2)) + ' expected ' + JSON.stringify(out.slice(0, 2))
+            } finally {
+              Error.prepareStackTrace = saved
+            }
+          }
         }
       } else if (step.op === 'bulk') {
         // many other files are rewritten in between: the maps of the files in use must survive
